@@ -25,6 +25,11 @@ fn snd(s: &rosu_pp::model::hit_object::HitSoundType) -> i64 {
 
 /// converts with the hook on; returns (converted map, [(idx, times)])
 fn convert_traced(map: &Beatmap) -> Result<(Beatmap, Vec<(i64, Vec<f64>)>), String> {
+    convert_traced_ts(map).map(|(m, b, _)| (m, b))
+}
+
+/// ... and the tick spacing each burst was generated with
+fn convert_traced_ts(map: &Beatmap) -> Result<(Beatmap, Vec<(i64, Vec<f64>)>, Vec<f64>), String> {
     rosu_pp::verif::trace::start();
     let r = guarded(|| map.convert_ref(GameMode::Taiko, &0u32.into()).map(|c| c.into_owned()));
     let raw = rosu_pp::verif::trace::take();
@@ -38,8 +43,13 @@ fn convert_traced(map: &Beatmap) -> Result<(Beatmap, Vec<(i64, Vec<f64>)>), Stri
             (idx, times.split(',').filter(|t| !t.is_empty()).map(|t| t.trim().parse::<f64>().unwrap_or(f64::NAN)).collect())
         })
         .collect();
+    let spacings: Vec<f64> = raw
+        .iter()
+        .filter(|e| e.contains("\"g\":\"taiko_burst\""))
+        .map(|e| e.split("\"tick_spacing\":").nth(1).and_then(|r| r.split(',').next()).and_then(|x| x.trim().parse::<f64>().ok()).unwrap_or(f64::NAN))
+        .collect();
     match r {
-        Ok(Ok(m)) => Ok((m, bursts)),
+        Ok(Ok(m)) => Ok((m, bursts, spacings)),
         Ok(Err(e)) => Err(format!("convert error: {e}")),
         Err(p) => Err(format!("panic: {p}")),
     }
@@ -213,10 +223,10 @@ pub fn record_main(args: &[String]) -> i32 {
     let lines = par_map(texts.len(), n_threads(), |i| {
         let Ok(map) = Beatmap::from_bytes(texts[i].as_bytes()) else { return None };
         let label = format!("{} taiko source {i} (seed {seed})", if i < base_n { "random" } else { "random + neighbour of a burst hit" });
-        let res = convert_traced(&map);
-        let (conv, bursts) = match res {
+        let res = convert_traced_ts(&map);
+        let (conv, bursts, spacings) = match res {
             Ok(x) => x,
-            Err(e) => return Some(json!({"label": label, "panic": true, "msg": e, "osu_text": texts[i], "src": [], "sounds": [], "log": [], "out": [], "out_sounds": []}).to_string()),
+            Err(e) => return Some(json!({"label": label, "panic": true, "msg": e, "osu_text": texts[i], "src": [], "sounds": [], "log": [], "ts_pos": [], "out": [], "out_sounds": []}).to_string()),
         };
         let mut all: Vec<f64> = map.hit_objects.iter().map(|h| h.start_time).chain(conv.hit_objects.iter().map(|h| h.start_time)).chain(bursts.iter().flat_map(|b| b.1.iter().copied())).collect();
         all.sort_by(|a, b| a.total_cmp(b));
@@ -238,6 +248,7 @@ pub fn record_main(args: &[String]) -> i32 {
         }).collect();
         let out: Vec<Value> = conv.hit_objects.iter().map(|h| json!({"id": h.pos.x.round() as i64, "t": rk(h.start_time), "kind": kind_char(&h.kind)})).collect();
         Some(json!({"label": label, "panic": false, "src": src, "sounds": map.hit_sounds.iter().map(snd).collect::<Vec<_>>(), "log": bursts.iter().map(|b| b.0).collect::<Vec<_>>(),
+                    "ts_pos": spacings.iter().map(|t| *t > 0.0).collect::<Vec<_>>(),
                     "out": out, "out_sounds": conv.hit_sounds.iter().map(snd).collect::<Vec<_>>(), "osu_text": texts[i]}).to_string())
     });
     let lines: Vec<String> = lines.into_iter().flatten().collect();
